@@ -8,7 +8,7 @@ from __future__ import annotations
 import ast
 import os
 from dataclasses import dataclass, field
-from typing import Dict, Iterator, List, Optional, Tuple
+from typing import Dict, Iterator, List, Optional, Set, Tuple
 
 
 class AnalysisError(Exception):
@@ -203,6 +203,20 @@ class Program:
         pkgdir = os.path.join(root, PKG)
         if not os.path.isdir(pkgdir):
             raise AnalysisError(f"package directory missing: {pkgdir}")
+        # names imported from sibling modules: an extracted helper that another module imports must
+        # survive in its home module even when all of its local uses were inlined
+        self.imported_names: Set[str] = set()
+        for dirpath, _dirs, files in os.walk(pkgdir):
+            for fn in sorted(files):
+                if fn.endswith(".py"):
+                    try:
+                        with open(os.path.join(dirpath, fn), encoding="utf-8") as f:
+                            t0 = ast.parse(f.read())
+                    except (OSError, SyntaxError):
+                        continue
+                    for x in ast.walk(t0):
+                        if isinstance(x, ast.ImportFrom):
+                            self.imported_names.update(a.name for a in x.names)
         for dirpath, _dirs, files in os.walk(pkgdir):
             for fn in sorted(files):
                 if not fn.endswith(".py"):
@@ -245,7 +259,7 @@ class Program:
             if _BASELINE is None:
                 _BASELINE = load_baseline()
             try:
-                inlined, renamed = inline_unknown_helpers(tree, modname, _BASELINE)
+                inlined, renamed = inline_unknown_helpers(tree, modname, _BASELINE, keep=getattr(self, 'imported_names', set()))
             except RecursionError:
                 inlined, renamed = [], {}
             from .normalize import forward_substitute_temps, scalarise_records
@@ -261,6 +275,12 @@ class Program:
             n_fs = forward_substitute_temps(tree)
             if n_fs:
                 inlined = inlined + [f"forward-substituted {n_fs} adjacent single-use temporaries / bool() tests"]
+            from .normalize import unroll_table_loops
+
+            n_un = unroll_table_loops(tree)
+            if n_un:
+                inlined = inlined + [f"unrolled {n_un} table-driven loop(s)"]
+                forward_substitute_temps(tree)
         _set_parents(tree)
         mod = Module(modname, path, rel, src, tree, trusted=trusted)
         mod.inlined = inlined  # type: ignore[attr-defined]
